@@ -389,7 +389,7 @@ def minimise_ops(env, case, info):
         c = dict(case, ops=sub)
         try:
             msg, inf = run_case(env, c)
-        except M.Rejected:
+        except (M.Rejected, M.InSessionError):
             return None
         return (msg, inf) if msg else None
     f = info.get('failing', {})
@@ -511,6 +511,12 @@ def evaluate(ctx, env, case, status, shrink_ops):
     try:
         try:
             run_case(env, case, on_op, on_fail)
+        except M.InSessionError as r:
+            ctx.inconclusive += 1
+            ctx.count('in-session-script-failed')
+            rs = ctx.extra.setdefault('in_session_failure_samples', [])
+            if len(rs) < 3:
+                rs.append({'script': case['prep'], 'pony_says': str(r)[:200]})
         except M.Rejected as r:
             ctx.rejected += 1
             ctx.count('rejected-script')
@@ -638,7 +644,7 @@ def case_strategy(tier):
             return False
 
         def keys_of(e=None, pred=None):
-            return sorted((h for h, o in model.mem.items() if o['captured'] and not o['deleted'] and (e is None or h[0] == e)
+            return sorted((h for h, o in model.mem.items() if o['captured'] and not o['deleted'] and not o['deleted_ok'] and (e is None or h[0] == e)
                            and (pred is None or pred(h, o))), key=repr)
 
         def attrs_of(h):
@@ -843,7 +849,7 @@ def replay(case):
             M.load_data(env, case['data'])
             try:
                 msg, info = run_case(env, case)
-            except M.Rejected:
+            except (M.Rejected, M.InSessionError):
                 return None
             return full_message(case, msg) if msg else None
         finally:
